@@ -312,6 +312,16 @@ def canon(v):
         return v
     if isinstance(v, BlockVec):
         return v
+    # arguments the polynomial domain cannot express (a z3 term such as min(c*h, h), a value the executor does not model): kept as
+    # symbols of their own -- an application to them is then simply a *different* application from the one the specification names
+    if isinstance(v, Opaque):
+        return ("opaque", v.tag)
+    try:
+        import z3 as _z3
+        if _z3.is_expr(v):
+            return ("z3", v.sexpr())
+    except Exception:
+        pass
     raise TypeError("cannot canonicalise %r" % (v,))
 
 
